@@ -10,7 +10,7 @@ from __future__ import annotations
 import ast
 from typing import List, Optional, Set
 
-from ..model import Program, AnalysisError, FuncInfo, walk_local, dotted
+from ..model import Program, AnalysisError, FuncInfo, walk_local, dotted, parents_of
 from ..report import RuleResult, guard
 from .usertruth import user_truth
 from ..astutil import src, site, calls_in, call_name, is_self_attr, is_super_call
@@ -106,6 +106,27 @@ def sg_register(prog: Program) -> RuleResult:
                     r.fail(f"{f.short}#return-unknown", site(f, n.stmt), src(n.stmt)[:80], "returns a value the rule cannot classify as registered allocation or foreign object")
         if nret == 0:
             r.fail(f"{f.short}#no-allocation-return", site(f), "", "allocator returns no allocated instance")
+        # a registration that fails (the class diagram cannot be built yet, the instance cannot be referenced weakly) must fail the
+        # construction: an instance that exists but was never registered is missing from every range
+        par = parents_of(f.node)
+        swallowed = None
+        for c in calls_in(f.node):
+            if f.module.resolve(c.func) != upd.qual:
+                continue
+            cur = c
+            while cur in par:
+                up = par[cur]
+                if isinstance(up, ast.Try) and cur in up.body:
+                    for h in up.handlers:
+                        if not (h.body and isinstance(h.body[-1], ast.Raise)):
+                            swallowed = swallowed or (c, h)
+                if isinstance(up, (ast.With, ast.AsyncWith)) and any("suppress" in src(i.context_expr) for i in up.items):
+                    swallowed = swallowed or (c, up)
+                cur = up
+        r.check(swallowed is None, f"{f.short}#registration-failure-is-not-swallowed", site(f, swallowed[1]) if swallowed else site(f), src(swallowed[1]).splitlines()[0][:80] if swallowed else "",
+                "an exception of the registration leaves the allocator",
+                f"`{src(swallowed[1]).splitlines()[0] if swallowed else ''}` lets the allocator return an instance whose registration failed (a TypeResolutionError of a class diagram that cannot be "
+                f"built yet is a TypeError as well): the instance exists, and no let(T, domain=None) ever ranges over it")
     # registration itself
     paths = explore(prog, upd, [Sym("instance")], inline=lambda q: False)
     reg_ok = True
@@ -416,6 +437,28 @@ def sg_singleton(prog: Program) -> RuleResult:
     r.check(bad is None, "SingletonMeta.__call__#existing-instance-is-kept", site(f), f"{len(exists)} path(s) with a registered instance", "nothing is created or stored while an instance is registered",
             f"on the path {dict(bad[0]) if bad else ''} an instance is created / stored although one is registered ({term(bad[1][0])[:60] if bad else ''}): SymbolGraph(<anything>) replaces the graph and "
             "with it the registry of live instances - every let(T, None) afterwards misses the instances created before")
+    # ... and there is one table of instances for the process: what is registered with the singleton anywhere (an instance created on a
+    # worker thread, a serialiser registered when a module is imported) is found through it everywhere
+    tables = sorted({a.attr for x in walk_local(f.node) for a in ast.walk(x) if isinstance(a, ast.Attribute) and isinstance(a.value, ast.Name) and a.value.id == f.params[0]
+                     and any(isinstance(y, ast.Compare) and any(isinstance(o, (ast.In, ast.NotIn)) for o in y.ops) and a in ast.walk(y) for y in walk_local(f.node))})
+    if not tables:
+        raise AnalysisError("SG-SINGLETON: SingletonMeta.__call__ no longer tests a table of instances on the class")
+    for tname in tables:
+        fi = sm.attrs.get(tname)
+        why = None
+        if tname in sm.methods or tname in sm.setters:
+            why = f"`{tname}` is computed by a method / property of the metaclass"
+        elif fi is None or fi.value is None:
+            why = f"`{tname}` is not a class-level attribute with a value"
+        else:
+            v = fi.value
+            plain = (isinstance(v, ast.Dict) and not v.keys) or (isinstance(v, ast.Call) and isinstance(v.func, ast.Name) and v.func.id in ("dict", "OrderedDict") and not v.args and not v.keywords)
+            if not plain:
+                why = f"`{tname} = {src(v)[:50]}` is not a plain dictionary"
+        r.check(why is None, f"SingletonMeta.{tname}#one-table-per-process", sm.loc if fi is None else f"{sm.module.relpath}:{fi.stmt.lineno}", src(fi.stmt)[:80] if fi is not None else tname,
+                "the instances are kept in one dictionary created with the metaclass",
+                f"{why}: the table a caller sees can differ from the one the instance was registered in (per thread, per context) - the serialisers registered at import time are "
+                f"unknown on a worker thread (to_json(uuid) raises there), instances created on one thread are missing from let(T, domain=None) on another")
     return r
 
 
